@@ -308,6 +308,18 @@ func (e *engine) loadRepro(path string) {
 				}
 			}
 		}
+		if err != nil && rf.Seed != "" {
+			// a generated seed (signed at start-up): rebuild the input from the live seed set
+			for _, base := range e.seeds {
+				if base.Name == rf.Seed && base.data != nil {
+					var m mutate.Mutation
+					if m, err = mutate.ParseSpec(rf.Mutation); err == nil {
+						data = m.Apply(base.data)
+					}
+					break
+				}
+			}
+		}
 		if err != nil {
 			fmt.Println("C11: reproducer without input:", path)
 			return
